@@ -13,7 +13,7 @@ PARTIAL = {
     "C05": "Proved: shipped factors within tolerance of the exact definitions except the 13 bit-family rows (known finding; partial theorem + proved counterexample), symbols, spellings (partial: yard), round trip, paths, cross-kind refusal, bare numbers, affine temperature.",
     "C06": "Proved in any field with a lawful kernel: sizes add, subtract, scale and divide, cancellation laws, negation, every refusal.",
     "C07": "Proved for arbitrary sizes: every matrix operation refines the Mathlib operation, cofactor determinant = Matrix.det, det multiplicative, transpose laws, inverse exists iff det != 0 and A * inverse A = 1 (adjugate), cross product laws, |v|, shapes never panic. The column-cross orientation is a known finding (stated as a proved fact about the model).",
-    "C08": "Proved: shipped built-in table = specification table (names, arities, parameter names, domains), name table, constants in 16-digit enclosures, refusal order and the identity of the diagnostic, each name runs the kernel primitive of its name. The primitives are num-complex's (assumed mathematical up to rounding) and the repaired gcd/lcm routine is compared by the built-in stream and functional identities only.",
+    "C08": "Proved: shipped built-in table = specification table (names, arities, parameter names, domains), name table, constants in 16-digit enclosures, refusal order and the identity of the diagnostic, each name runs the kernel primitive of its name; the formulas of num-complex (written once, generically, in Calc/Model/CxGeneric.lean and instantiated at Float for the driver) equal Mathlib's complex functions when instantiated at the reals (field operations, norm, arg, exp, log, principal square root, complex power, truncated remainder, sin cos tan sinh cosh tanh, the inverse functions by their log formulas); Euclid's loop of gcd/lcm returns Nat.gcd / Nat.lcm and gcd*lcm = |ab|. Rounding, and the fidelity of the port to the Rust crate, are carried by the bit-for-bit built-in stream.",
     "C09": "Proved: invariant (every constant entry is the initial one, every initial entry is present) over all histories, sessions and texts; every refusal; clear = initial table up to permutation.",
     "C10": "Proved: a statement that prints a failure line leaves the environment unchanged; a text that fails to scan or parse runs nothing and prints exactly one line.",
     "C11": "Proved: evaluation returns the environment it was given (all trees, environments, fuel), parameters are scoped, evaluation is repeatable.",
@@ -21,8 +21,8 @@ PARTIAL = {
     "C13": "Proved: first-match dispatch by arity and literals, binding of named parameters, define replaces in place or appends, delete removes exactly one, reachable signature lists are non-empty and pairwise inequivalent, listing order (Kernel.eq = equality is an explicit hypothesis where needed).",
     "C14": "Proved: every operator-level diagnostic carries its own token's position, evaluation order (left before right, callee before arguments, entries left to right), statement-level blame, exactly one line per failing statement and the run continues, C14_eval_blame for whole trees; parse errors carry the first unconsumed token.",
     "C15": "Proved under an explicit, satisfiable FmtSpec on the real formatter: an independent reader inverts the complex printer on all nine forms; measurement form; distinct symbols; matrix structure; built-in marker. Rust's Display for f64 is trusted and checked by the fmt and print streams with an independent reader.",
-    "C16": "Proved for the model of main.rs: trailing newline, shared environment, exit in any letter case, line isolation, tab size changes positions only (scanner and parser commute with position erasure). clap, rustyline and the real process are observed only through the binary (front stream: binary vs in-process prediction vs model, cross-mode comparison).",
-    "C17": "Proved: inserting blanks at any token boundary preserves kinds, lexemes and values (general, discharged for the shipped Unicode table); delimiter flips and extra delimiters do not change the parse. Blank removal by the adjacency rule is carried by the re-rendering streams.",
+    "C16": "Proved for the model of main.rs: trailing newline, shared environment, exit in any letter case, line isolation, tab size changes positions only (scanner and parser commute with position erasure), and C16_three_modes: well-formed lines given as a file, as the expression, or typed line by line produce the same outputs up to positions and the same final bindings (scanner and parser compositional over lines; evaluation commutes with position erasure). clap, rustyline and the real process are observed only through the binary (front stream: binary vs in-process prediction vs model, cross-mode comparison).",
+    "C17": "Proved: inserting blanks at any token boundary preserves kinds, lexemes and values (general, discharged for the shipped Unicode table); removing a blank run is harmless whenever a decidable adjacency rule (needsSepAt) says the neighbours cannot fuse; delimiter flips and extra delimiters do not change the parse.",
     "C18": "Proved: listing shape, printer structure (in-order lexemes, nothing dropped), adjacency safety. Reading the listing back through the real scanner is the two-phase listing stream.",
     "C19": "Proved: every observable of a session is invariant under permutation of the variable table. Hash seeds, locale, working directory and environment variables are exercised by repeated fresh processes.",
 }
